@@ -73,7 +73,8 @@ def run_case(ck, case, reqs, pending):
     where = case["where"]
     t_test = 0 if where == "first" else (nfr - 1 if where == "last" else int(rng.integers(1, nfr - 1)))
     times = np.cumsum(rng.uniform(0.3, 2.5, size=nfr))
-    times = times * (bound / vmax) / float(np.min(np.diff(times)))          # every step moves less than the bound ... for the tested step
+    t_other = t_test - 1 if where == "last" else t_test + 1                  # the frame the finite difference at t_test uses
+    times = times * (bound / vmax) / float(abs(times[t_other] - times[t_test]))   # the tested step moves the fastest junction by exactly the bound
     frames_bm = []
     base = sc.bm
     for t in range(nfr):
